@@ -1,6 +1,7 @@
 package main
 
 import (
+	"fmt"
 	"go/constant"
 	"go/token"
 	"go/types"
@@ -58,6 +59,8 @@ func checkC09(w *World, r *Report) {
 	r.rule("C09.version", "every store to Atom.Val of a shared atom is accompanied, in the same function, by an increment of Atom.version (otherwise a concurrent swap! cannot notice the update and overwrites it)")
 	guardRule(w, r, e, "C09.guard", w.guardRows()[0])
 	derefSourceRule(w, r, e, "C09.deref-source")
+	derefBuiltinRule(w, r, "C09.deref-builtin")
+	monotoneAtomLint(w, r, "C09.lisp-monotone")
 	identityObjectsRule(w, r, "C09.one-object", "Atom")
 	// "swap! ... installs and returns the result": swap!, reset! and deref reach programs through the binder's
 	// adapter closures, which must hand back what the operation returned
@@ -799,6 +802,7 @@ func checkC10(w *World, r *Report) {
 	singleOutcomeRule(w, r, e, "C10.single-outcome")
 	doneFlagRule(w, r, e, "C10.done-flag")
 	cancelFlagRule(w, r, "C10.cancel-flag")
+	statusBuiltinRule(w, r, "C10.status-builtins")
 	identityObjectsRule(w, r, "C10.one-object", "Future")
 	derefContextRule(w, r, "C10.deref-context")
 	r.rule("C10.body-context", "every evaluation the library starts runs under the context its function was given or a child of it - never under a fresh one, never under one captured from an enclosing activation in its place: the body of a future runs under the very context that future-cancel cancels, and a deref reached from any form (a finally body included) waits under the context of the evaluation that contains it (shared with C07.derive)")
@@ -2047,6 +2051,33 @@ func derefSourceRule(w *World, r *Report, e *Engine, rule string) {
 		r.undecided(rule, nil, "(*Atom).Deref", token.NoPos, "method no longer resolves")
 		return
 	}
+	// isValAt: every return of callee hands back the Val field of its parameter number pi
+	var isValAt func(c *ssa.Call, callee *ssa.Function, pi int, depth int) bool
+	isValAt = func(c *ssa.Call, callee *ssa.Function, pi int, depth int) bool {
+		if depth > 4 {
+			return false
+		}
+		n := 0
+		for _, b := range callee.Blocks {
+			if b == callee.Recover {
+				continue
+			}
+			ret, ok := b.Instrs[len(b.Instrs)-1].(*ssa.Return)
+			if !ok || len(ret.Results) == 0 {
+				continue
+			}
+			n++
+			ld, ok := resolveRet(ret.Results[0]).(*ssa.UnOp)
+			if !ok || ld.Op != token.MUL {
+				return false
+			}
+			fa, ok := ld.X.(*ssa.FieldAddr)
+			if !ok || fieldName(fa.X.Type(), fa.Field) != "Val" || fa.X != ssa.Value(callee.Params[pi]) {
+				return false
+			}
+		}
+		return n > 0
+	}
 	var isVal func(v ssa.Value, fn *ssa.Function, depth int) bool
 	isVal = func(v ssa.Value, fn *ssa.Function, depth int) bool {
 		if depth > 4 {
@@ -2063,8 +2094,22 @@ func derefSourceRule(w *World, r *Report, e *Engine, rule string) {
 			}
 		case *ssa.Call:
 			callee := x.Call.StaticCallee()
-			if callee == nil || callee.Signature.Recv() == nil || len(x.Call.Args) == 0 || x.Call.Args[0] != ssa.Value(fn.Params[0]) || len(callee.Blocks) == 0 {
+			if callee == nil || !inModule(callee) || len(callee.Blocks) == 0 {
 				return false
+			}
+			// the atom is handed on as the callee's receiver or as one of its arguments
+			pi := -1
+			for i, a := range x.Call.Args {
+				if a == ssa.Value(fn.Params[0]) && i < len(callee.Params) {
+					pi = i
+				}
+			}
+			if pi < 0 {
+				return false
+			}
+			if pi != 0 {
+				// judged with that parameter in the receiver's place
+				return isValAt(x, callee, pi, depth)
 			}
 			n := 0
 			for _, b := range callee.Blocks {
@@ -2101,4 +2146,69 @@ func derefSourceRule(w *World, r *Report, e *Engine, rule string) {
 		r.check(isVal(v, df, 0), rule, df, "value returned by deref", ret.Pos(), "the receiver's Val", "deref answers with "+describeVal(e, v, 0)+", not with the atom's value field: a value kept beside the atom (published without the lock, or refreshed late) can be older than what reset! or swap! already returned")
 	}
 	r.floor(rule, "successful returns of (*Atom).Deref", n, 1)
+}
+
+// derefBuiltinRule: @x is one Deref of x: the builtin hands back what that one call returned. It does not go
+// on to dereference the value it found (an atom that holds an atom, a future or itself is a value like any
+// other: "deref returns the latest installed value"), and it does not loop.
+func derefBuiltinRule(w *World, r *Report, rule string) {
+	r.rule(rule, "the deref builtin makes exactly one Deref call on its argument, outside any loop, and returns that call's results: the value installed in an atom is what @ yields, also when that value is itself an atom or a future")
+	fn := w.builtin("deref")
+	if fn == nil {
+		r.undecided(rule, nil, "builtin deref", token.NoPos, "the function registered as deref no longer resolves")
+		return
+	}
+	var calls []ssa.CallInstruction
+	for _, f := range w.withPkgHelpers(fn) {
+		for _, b := range f.Blocks {
+			for _, in := range b.Instrs {
+				if ci, ok := in.(ssa.CallInstruction); ok && ci.Common().IsInvoke() && ci.Common().Method.Name() == "Deref" {
+					calls = append(calls, ci)
+				}
+			}
+		}
+		r.check(len(naturalLoops(f)) == 0, rule, f, "straight-line deref", f.Pos(), "no loop", "the deref builtin loops: it keeps dereferencing what it finds, so an atom holding a reference yields something other than its value (and an atom holding itself never yields)")
+	}
+	r.check(len(calls) == 1, rule, fn, "Deref calls made by the builtin", fn.Pos(), "exactly one", fmt.Sprintf("%d Deref calls: the value found is dereferenced again", len(calls)))
+	if len(calls) == 1 {
+		for _, rt := range errorReturns(fn) {
+			ret := rt[0].(*ssa.Return)
+			ok := false
+			if ex, isEx := rt[1].(ssa.Value).(*ssa.Extract); isEx && ex.Tuple == calls[0].Value() && ex.Index == 0 {
+				ok = true
+			}
+			r.check(ok, rule, fn, "value returned by the builtin", ret.Pos(), "the Deref call's own result", "deref returns something other than what the one Deref call yielded")
+		}
+	}
+	r.floor(rule, "Deref calls of the deref builtin", len(calls), 1)
+}
+
+// statusBuiltinRule: future-done? and future-cancelled? answer with the future's own status method and nothing
+// else: the value the registered function returns is the result of that one call (no second condition mixed
+// in: a cancelled future that has delivered is done).
+func statusBuiltinRule(w *World, r *Report, rule string) {
+	r.rule(rule, "the functions registered as future-done? and future-cancelled? return the result of (*Future).IsDone / IsCancelled as it is: the answer programs get is the flag the other rules examine, not a combination of it with something else")
+	n := 0
+	for lisp, method := range map[string]string{"future-done?": "IsDone", "future-cancelled?": "IsCancelled"} {
+		fn := w.builtin(lisp)
+		if fn == nil {
+			r.undecided(rule, nil, lisp, token.NoPos, "the function registered under this name no longer resolves")
+			continue
+		}
+		for _, rt := range errorReturns(fn) {
+			ret := rt[0].(*ssa.Return)
+			v, _ := rt[1].(ssa.Value)
+			ev, _ := rt[2].(ssa.Value)
+			if v == nil || (ev != nil && !isNilConst(ev)) {
+				continue
+			}
+			n++
+			ok := false
+			if c, isC := v.(*ssa.Call); isC && c.Call.StaticCallee() != nil && c.Call.StaticCallee().Name() == method && c.Call.StaticCallee().Signature.Recv() != nil {
+				ok = true
+			}
+			r.check(ok, rule, fn, "answer of "+lisp, ret.Pos(), "the result of "+method+"()", lisp+" answers with "+describeVal(nil, v, 0)+" instead of the future's "+method+"(): what programs are told about a future differs from its flag (a cancelled future whose outcome every deref returns is never done, say)")
+		}
+	}
+	r.floor(rule, "answers of the status builtins", n, 2)
 }
